@@ -21,264 +21,228 @@ Import ListNotations.
 Open Scope Z_scope.
 
 (* ============================================================ (1) every notation of (ver, v, p) builds the same network *)
-(* "a/p" *)
-Theorem C03_notations_prefix : forall be ver v p ip version flags,
-  valid_ver ver = true /\ 0 <= v < 2 ^ width ver -> 0 <= p <= width ver -> version = Some ver \/ version = None ->
-  (do a <- int_to_str be ver v None; net_init be (AStr (a ++ "/" ++ fmt_d p)) ip version flags) =
-  Ok {| nver := ver; nval := if has_flag flags NOHOST then v - v mod 2 ^ (width ver - p) else v; nplen := p |}.
-Proof. exact notations_prefix. Qed.
-Print Assumptions C03_notations_prefix.
-
-(* "a/<netmask of p>", every p including 0 (all-zeros mask) and w (all-ones mask) *)
-Theorem C03_notations_netmask : forall be ver v p ip version flags,
-  valid_ver ver = true /\ 0 <= v < 2 ^ width ver -> 0 <= p <= width ver -> version = Some ver \/ version = None ->
-  (do a <- int_to_str be ver v None; do m <- int_to_str be ver (2 ^ width ver - 2 ^ (width ver - p)) None;
-   net_init be (AStr (a ++ "/" ++ m)) ip version flags) =
-  Ok {| nver := ver; nval := if has_flag flags NOHOST then v - v mod 2 ^ (width ver - p) else v; nplen := p |}.
-Proof. exact notations_netmask. Qed.
-Print Assumptions C03_notations_netmask.
-
-(* "a/<hostmask of p>" for the proper hostmasks *)
-Theorem C03_notations_hostmask : forall be ver v p ip version flags,
-  valid_ver ver = true /\ 0 <= v < 2 ^ width ver -> 0 < p < width ver -> version = Some ver \/ version = None ->
-  (do a <- int_to_str be ver v None; do m <- int_to_str be ver (2 ^ (width ver - p) - 1) None;
-   net_init be (AStr (a ++ "/" ++ m)) ip version flags) =
-  Ok {| nver := ver; nval := if has_flag flags NOHOST then v - v mod 2 ^ (width ver - p) else v; nplen := p |}.
-Proof. exact notations_hostmask. Qed.
-Print Assumptions C03_notations_hostmask.
-
-(* the two masks that are both a netmask and a hostmask: is_netmask is tested first, so the hostmask of /0 (all-ones)
-   gives /w and the hostmask of /w (all-zeros) gives /0 *)
-Theorem C03_notations_hostmask_ambiguous : forall be ver v ip version flags,
-  valid_ver ver = true /\ 0 <= v < 2 ^ width ver -> version = Some ver \/ version = None ->
-  (do a <- int_to_str be ver v None; do m <- int_to_str be ver (2 ^ (width ver - 0) - 1) None;
-   net_init be (AStr (a ++ "/" ++ m)) ip version flags) =
-  Ok {| nver := ver; nval := if has_flag flags NOHOST then v - v mod 2 ^ (width ver - width ver) else v; nplen := width ver |} /\
-  (do a <- int_to_str be ver v None; do m <- int_to_str be ver (2 ^ (width ver - width ver) - 1) None;
-   net_init be (AStr (a ++ "/" ++ m)) ip version flags) =
-  Ok {| nver := ver; nval := if has_flag flags NOHOST then v - v mod 2 ^ (width ver - 0) else v; nplen := 0 |}.
-Proof. exact notations_hostmask_ambiguous. Qed.
-Print Assumptions C03_notations_hostmask_ambiguous.
-
-(* the tuple (v, p) with an explicit version *)
-Theorem C03_notations_tuple : forall be ver v p ip flags,
-  valid_ver ver = true /\ 0 <= v < 2 ^ width ver -> 0 <= p <= width ver ->
-  net_init be (ATuple [v; p]) ip (Some ver) flags =
-  Ok {| nver := ver; nval := if has_flag flags NOHOST then v - v mod 2 ^ (width ver - p) else v; nplen := p |}.
-Proof. exact notations_tuple. Qed.
-Print Assumptions C03_notations_tuple.
-
-(* ... and without one: the tuple does not say its family, IPv4 is tried first *)
-Theorem C03_notations_tuple_implicit : forall be v p ip flags, 0 <= v < 2 ^ 128 -> 0 <= p <= 128 ->
-  net_init be (ATuple [v; p]) ip None flags =
-  Ok (let ver := if (v <? 2 ^ 32) && (p <=? 32) then 4 else 6 in
-      {| nver := ver; nval := if has_flag flags NOHOST then v - v mod 2 ^ (width ver - p) else v; nplen := p |}).
-Proof. exact notations_tuple_implicit. Qed.
-Print Assumptions C03_notations_tuple_implicit.
-
-(* copy construction from an IPNetwork (the `version` and `implicit_prefix` arguments are not looked at) *)
-Theorem C03_notations_copy_net : forall be ver v p ip version flags,
-  valid_ver ver = true /\ 0 <= v < 2 ^ width ver -> 0 <= p <= width ver ->
-  net_init be (ANet {| nver := ver; nval := v; nplen := p |}) ip version flags =
-  Ok {| nver := ver; nval := if has_flag flags NOHOST then v - v mod 2 ^ (width ver - p) else v; nplen := p |}.
-Proof. exact notations_copy_net. Qed.
-Print Assumptions C03_notations_copy_net.
-
-(* copy construction from an IPAddress: full-width prefix *)
-Theorem C03_notations_copy_addr : forall be ver v ip version flags,
-  valid_ver ver = true /\ 0 <= v < 2 ^ width ver ->
-  net_init be (AAddr ver v) ip version flags = Ok {| nver := ver; nval := v; nplen := width ver |}.
-Proof. exact notations_copy_addr. Qed.
-Print Assumptions C03_notations_copy_addr.
+Theorem C03_notations :
+  (* [notations_prefix] *)
+  (* "a/p" *)
+  (forall be ver v p ip version flags,
+     valid_ver ver = true /\ 0 <= v < 2 ^ width ver -> 0 <= p <= width ver -> version = Some ver \/ version = None ->
+     (do a <- int_to_str be ver v None; net_init be (AStr (a ++ "/" ++ fmt_d p)) ip version flags) =
+     Ok {| nver := ver; nval := if has_flag flags NOHOST then v - v mod 2 ^ (width ver - p) else v; nplen := p |}) /\
+  (* [notations_netmask] *)
+  (* "a/<netmask of p>", every p including 0 (all-zeros mask) and w (all-ones mask) *)
+  (forall be ver v p ip version flags,
+     valid_ver ver = true /\ 0 <= v < 2 ^ width ver -> 0 <= p <= width ver -> version = Some ver \/ version = None ->
+     (do a <- int_to_str be ver v None; do m <- int_to_str be ver (2 ^ width ver - 2 ^ (width ver - p)) None;
+      net_init be (AStr (a ++ "/" ++ m)) ip version flags) =
+     Ok {| nver := ver; nval := if has_flag flags NOHOST then v - v mod 2 ^ (width ver - p) else v; nplen := p |}) /\
+  (* [notations_hostmask] *)
+  (* "a/<hostmask of p>" for the proper hostmasks *)
+  (forall be ver v p ip version flags,
+     valid_ver ver = true /\ 0 <= v < 2 ^ width ver -> 0 < p < width ver -> version = Some ver \/ version = None ->
+     (do a <- int_to_str be ver v None; do m <- int_to_str be ver (2 ^ (width ver - p) - 1) None;
+      net_init be (AStr (a ++ "/" ++ m)) ip version flags) =
+     Ok {| nver := ver; nval := if has_flag flags NOHOST then v - v mod 2 ^ (width ver - p) else v; nplen := p |}) /\
+  (* [notations_hostmask_ambiguous] *)
+  (* the two masks that are both a netmask and a hostmask: is_netmask is tested first, so the hostmask of /0 (all-ones)
+     gives /w and the hostmask of /w (all-zeros) gives /0 *)
+  (forall be ver v ip version flags,
+     valid_ver ver = true /\ 0 <= v < 2 ^ width ver -> version = Some ver \/ version = None ->
+     (do a <- int_to_str be ver v None; do m <- int_to_str be ver (2 ^ (width ver - 0) - 1) None;
+      net_init be (AStr (a ++ "/" ++ m)) ip version flags) =
+     Ok {| nver := ver; nval := if has_flag flags NOHOST then v - v mod 2 ^ (width ver - width ver) else v; nplen := width ver |} /\
+     (do a <- int_to_str be ver v None; do m <- int_to_str be ver (2 ^ (width ver - width ver) - 1) None;
+      net_init be (AStr (a ++ "/" ++ m)) ip version flags) =
+     Ok {| nver := ver; nval := if has_flag flags NOHOST then v - v mod 2 ^ (width ver - 0) else v; nplen := 0 |}) /\
+  (* [notations_tuple] *)
+  (* the tuple (v, p) with an explicit version *)
+  (forall be ver v p ip flags,
+     valid_ver ver = true /\ 0 <= v < 2 ^ width ver -> 0 <= p <= width ver ->
+     net_init be (ATuple [v; p]) ip (Some ver) flags =
+     Ok {| nver := ver; nval := if has_flag flags NOHOST then v - v mod 2 ^ (width ver - p) else v; nplen := p |}) /\
+  (* [notations_tuple_implicit] *)
+  (* ... and without one: the tuple does not say its family, IPv4 is tried first *)
+  (forall be v p ip flags, 0 <= v < 2 ^ 128 -> 0 <= p <= 128 ->
+     net_init be (ATuple [v; p]) ip None flags =
+     Ok (let ver := if (v <? 2 ^ 32) && (p <=? 32) then 4 else 6 in
+         {| nver := ver; nval := if has_flag flags NOHOST then v - v mod 2 ^ (width ver - p) else v; nplen := p |})) /\
+  (* [notations_copy_net] *)
+  (* copy construction from an IPNetwork (the `version` and `implicit_prefix` arguments are not looked at) *)
+  (forall be ver v p ip version flags,
+     valid_ver ver = true /\ 0 <= v < 2 ^ width ver -> 0 <= p <= width ver ->
+     net_init be (ANet {| nver := ver; nval := v; nplen := p |}) ip version flags =
+     Ok {| nver := ver; nval := if has_flag flags NOHOST then v - v mod 2 ^ (width ver - p) else v; nplen := p |}) /\
+  (* [notations_copy_addr] *)
+  (* copy construction from an IPAddress: full-width prefix *)
+  (forall be ver v ip version flags,
+     valid_ver ver = true /\ 0 <= v < 2 ^ width ver ->
+     net_init be (AAddr ver v) ip version flags = Ok {| nver := ver; nval := v; nplen := width ver |}).
+Proof. exact (conj notations_prefix (conj notations_netmask (conj notations_hostmask (conj notations_hostmask_ambiguous (conj notations_tuple (conj notations_tuple_implicit (conj notations_copy_net notations_copy_addr))))))). Qed.
+Print Assumptions C03_notations.
 
 (* ============================================================ (2) str() parses back to an identical network *)
-Theorem C03_str_roundtrip : forall be ver v p ip version flags,
-  valid_ver ver = true /\ 0 <= v < 2 ^ width ver -> 0 <= p <= width ver -> version = Some ver \/ version = None ->
-  (do s <- net_str be {| nver := ver; nval := v; nplen := p |}; net_init be (AStr s) ip version flags) =
-  Ok {| nver := ver; nval := if has_flag flags NOHOST then v - v mod 2 ^ (width ver - p) else v; nplen := p |}.
+Theorem C03_str_roundtrip :
+  (* [str_roundtrip] *)
+  (forall be ver v p ip version flags,
+     valid_ver ver = true /\ 0 <= v < 2 ^ width ver -> 0 <= p <= width ver -> version = Some ver \/ version = None ->
+     (do s <- net_str be {| nver := ver; nval := v; nplen := p |}; net_init be (AStr s) ip version flags) =
+     Ok {| nver := ver; nval := if has_flag flags NOHOST then v - v mod 2 ^ (width ver - p) else v; nplen := p |}).
 Proof. exact str_roundtrip. Qed.
 Print Assumptions C03_str_roundtrip.
 
 (* ============================================================ (3) a bare address gets the full-width prefix *)
-Theorem C03_bare : forall be ver v version flags,
-  valid_ver ver = true /\ 0 <= v < 2 ^ width ver -> version = Some ver \/ version = None ->
-  (do a <- int_to_str be ver v None; net_init be (AStr a) false version flags) =
-  Ok {| nver := ver; nval := v; nplen := width ver |}.
-Proof. exact bare. Qed.
+Theorem C03_bare :
+  (* [bare] *)
+  (forall be ver v version flags,
+     valid_ver ver = true /\ 0 <= v < 2 ^ width ver -> version = Some ver \/ version = None ->
+     (do a <- int_to_str be ver v None; net_init be (AStr a) false version flags) =
+     Ok {| nver := ver; nval := v; nplen := width ver |}) /\
+  (* [bare_v6_implicit] *)
+  (* also under implicit_prefix for IPv6 (for IPv4 the classful rule applies: C03_partial_classful with four octets) *)
+  (forall be v version flags, 0 <= v < 2 ^ 128 -> version = Some 6 \/ version = None ->
+     (do a <- int_to_str be 6 v None; net_init be (AStr a) true version flags) = Ok {| nver := 6; nval := v; nplen := 128 |}).
+Proof. exact (conj bare bare_v6_implicit). Qed.
 Print Assumptions C03_bare.
 
-(* also under implicit_prefix for IPv6 (for IPv4 the classful rule applies: C03_partial_classful with four octets) *)
-Theorem C03_bare_v6_implicit : forall be v version flags, 0 <= v < 2 ^ 128 -> version = Some 6 \/ version = None ->
-  (do a <- int_to_str be 6 v None; net_init be (AStr a) true version flags) = Ok {| nver := 6; nval := v; nplen := 128 |}.
-Proof. exact bare_v6_implicit. Qed.
-Print Assumptions C03_bare_v6_implicit.
-
-(* ============================================================ (4) NOHOST clears exactly the host bits — for EVERY argument *)
-(* whatever the argument (any string, tuple, copy source), if the flag-less call builds n then the call with any flags
-   builds the same family and prefix, with value n.value - n.value mod 2^(w - n.prefixlen) when the NOHOST bit is set *)
-Theorem C03_nohost : forall be a ip version flags n, wf_arg a -> net_init be a ip version 0 = Ok n ->
-  net_init be a ip version flags =
-  Ok {| nver := nver n;
-        nval := if has_flag flags NOHOST then nval n - nval n mod 2 ^ (width (nver n) - nplen n) else nval n;
-        nplen := nplen n |}.
-Proof. exact nohost_general. Qed.
+(* ============================================================ (4) NOHOST clears exactly the host bits - for EVERY argument *)
+Theorem C03_nohost :
+  (* [nohost] *)
+  (* whatever the argument (any string, tuple, copy source), if the flag-less call builds n then the call with any flags
+     builds the same family and prefix, with value n.value - n.value mod 2^(w - n.prefixlen) when the NOHOST bit is set *)
+  (forall be a ip version flags n, wf_arg a -> net_init be a ip version 0 = Ok n ->
+     net_init be a ip version flags =
+     Ok {| nver := nver n;
+           nval := if has_flag flags NOHOST then nval n - nval n mod 2 ^ (width (nver n) - nplen n) else nval n;
+           nplen := nplen n |}) /\
+  (* [failure_flag_free] *)
+  (forall be a ip version flags e, wf_arg a ->
+     (net_init be a ip version flags = Raise e <-> net_init be a ip version 0 = Raise e)).
+Proof. exact (conj nohost_general failure_flag_free). Qed.
 Print Assumptions C03_nohost.
 
-Theorem C03_failure_flag_free : forall be a ip version flags e, wf_arg a ->
-  (net_init be a ip version flags = Raise e <-> net_init be a ip version 0 = Raise e).
-Proof. exact failure_flag_free. Qed.
-Print Assumptions C03_failure_flag_free.
-
 (* ============================================================ (5) partial / classful IPv4 abbreviations *)
-Theorem C03_classful_table : forall o,
-  (0 <= o <= 255 -> classful_prefix_int o =
-     Ok (if o <=? 127 then 8 else if o <=? 191 then 16 else if o <=? 223 then 24 else if o <=? 239 then 4 else 32)) /\
-  (~ 0 <= o <= 255 -> classful_prefix_int o = Raise IndexError).
-Proof. exact (fun o => conj (classful_prefix_int_ok o) (classful_prefix_int_bad o)). Qed.
-Print Assumptions C03_classful_table.
-
-(* expand_partial_address pads 1-4 octets with ".0" *)
-Theorem C03_partial_expand : forall os, (1 <= List.length os <= 4)%nat /\ Forall (fun a => 0 <= a < 256) os ->
-  expand_partial_address (dotted os) = Ok (Std4.ntoa (pad4 os)).
-Proof. exact expand_partial. Qed.
-Print Assumptions C03_partial_expand.
-
-(* cidr_abbrev_to_verbose: octet padding and the class of the first octet / the explicit prefix *)
-Theorem C03_partial_abbrev_classful : forall os, (1 <= List.length os <= 4)%nat /\ Forall (fun a => 0 <= a < 256) os ->
-  exists o1, hd_error os = Some o1 /\
-  cidr_abbrev_to_verbose (dotted os) = Ok (Std4.ntoa (pad4 os) ++ "/" ++ fmt_d (classful o1))%string.
-Proof. exact abbrev_classful. Qed.
-Print Assumptions C03_partial_abbrev_classful.
-
-Theorem C03_partial_abbrev_prefixed : forall os p, (1 <= List.length os <= 4)%nat /\ Forall (fun a => 0 <= a < 256) os -> 0 <= p <= 32 ->
-  cidr_abbrev_to_verbose (dotted os ++ "/" ++ fmt_d p) = Ok (Std4.ntoa (pad4 os) ++ "/" ++ fmt_d p)%string.
-Proof. exact abbrev_prefixed. Qed.
-Print Assumptions C03_partial_abbrev_prefixed.
-
-(* IPNetwork on a partial form without prefix, implicit_prefix off: padded address, /32 *)
-Theorem C03_partial_bare : forall be os version flags,
-  (1 <= List.length os <= 4)%nat /\ Forall (fun a => 0 <= a < 256) os -> version = Some 4 \/ version = None ->
-  net_init be (AStr (dotted os)) false version flags = Ok {| nver := 4; nval := quad_value (pad4 os); nplen := 32 |}.
-Proof. exact partial_bare. Qed.
-Print Assumptions C03_partial_bare.
-
-(* ... with an explicit prefix 0..32 (implicit_prefix on or off): that prefix *)
-Theorem C03_partial_prefixed : forall be os p ip version flags,
-  (1 <= List.length os <= 4)%nat /\ Forall (fun a => 0 <= a < 256) os -> 0 <= p <= 32 -> version = Some 4 \/ version = None ->
-  net_init be (AStr (dotted os ++ "/" ++ fmt_d p)) ip version flags =
-  Ok {| nver := 4; nval := if has_flag flags NOHOST then quad_value (pad4 os) - quad_value (pad4 os) mod 2 ^ (width 4 - p)
-                           else quad_value (pad4 os); nplen := p |}.
-Proof. exact partial_prefixed. Qed.
-Print Assumptions C03_partial_prefixed.
-
-(* ... without prefix, implicit_prefix on: the classful prefix of the first octet (also for a full dotted quad) *)
-Theorem C03_partial_classful : forall be os o1 version flags,
-  (1 <= List.length os <= 4)%nat /\ Forall (fun a => 0 <= a < 256) os -> hd_error os = Some o1 -> version = Some 4 \/ version = None ->
-  net_init be (AStr (dotted os)) true version flags =
-  Ok {| nver := 4;
-        nval := if has_flag flags NOHOST then quad_value (pad4 os) - quad_value (pad4 os) mod 2 ^ (width 4 - classful o1)
-                else quad_value (pad4 os);
-        nplen := classful o1 |}.
-Proof. exact partial_classful. Qed.
-Print Assumptions C03_partial_classful.
+Theorem C03_partial :
+  (* [classful_table] *)
+  (forall o,
+     (0 <= o <= 255 -> classful_prefix_int o =
+        Ok (if o <=? 127 then 8 else if o <=? 191 then 16 else if o <=? 223 then 24 else if o <=? 239 then 4 else 32)) /\
+     (~ 0 <= o <= 255 -> classful_prefix_int o = Raise IndexError)) /\
+  (* [partial_expand] *)
+  (* expand_partial_address pads 1-4 octets with ".0" *)
+  (forall os, (1 <= List.length os <= 4)%nat /\ Forall (fun a => 0 <= a < 256) os ->
+     expand_partial_address (dotted os) = Ok (Std4.ntoa (pad4 os))) /\
+  (* [partial_abbrev_classful] *)
+  (* cidr_abbrev_to_verbose: octet padding and the class of the first octet / the explicit prefix *)
+  (forall os, (1 <= List.length os <= 4)%nat /\ Forall (fun a => 0 <= a < 256) os ->
+     exists o1, hd_error os = Some o1 /\
+     cidr_abbrev_to_verbose (dotted os) = Ok (Std4.ntoa (pad4 os) ++ "/" ++ fmt_d (classful o1))%string) /\
+  (* [partial_abbrev_prefixed] *)
+  (forall os p, (1 <= List.length os <= 4)%nat /\ Forall (fun a => 0 <= a < 256) os -> 0 <= p <= 32 ->
+     cidr_abbrev_to_verbose (dotted os ++ "/" ++ fmt_d p) = Ok (Std4.ntoa (pad4 os) ++ "/" ++ fmt_d p)%string) /\
+  (* [partial_bare] *)
+  (* IPNetwork on a partial form without prefix, implicit_prefix off: padded address, /32 *)
+  (forall be os version flags,
+     (1 <= List.length os <= 4)%nat /\ Forall (fun a => 0 <= a < 256) os -> version = Some 4 \/ version = None ->
+     net_init be (AStr (dotted os)) false version flags = Ok {| nver := 4; nval := quad_value (pad4 os); nplen := 32 |}) /\
+  (* [partial_prefixed] *)
+  (* ... with an explicit prefix 0..32 (implicit_prefix on or off): that prefix *)
+  (forall be os p ip version flags,
+     (1 <= List.length os <= 4)%nat /\ Forall (fun a => 0 <= a < 256) os -> 0 <= p <= 32 -> version = Some 4 \/ version = None ->
+     net_init be (AStr (dotted os ++ "/" ++ fmt_d p)) ip version flags =
+     Ok {| nver := 4; nval := if has_flag flags NOHOST then quad_value (pad4 os) - quad_value (pad4 os) mod 2 ^ (width 4 - p)
+                              else quad_value (pad4 os); nplen := p |}) /\
+  (* [partial_classful] *)
+  (* ... without prefix, implicit_prefix on: the classful prefix of the first octet (also for a full dotted quad) *)
+  (forall be os o1 version flags,
+     (1 <= List.length os <= 4)%nat /\ Forall (fun a => 0 <= a < 256) os -> hd_error os = Some o1 -> version = Some 4 \/ version = None ->
+     net_init be (AStr (dotted os)) true version flags =
+     Ok {| nver := 4;
+           nval := if has_flag flags NOHOST then quad_value (pad4 os) - quad_value (pad4 os) mod 2 ^ (width 4 - classful o1)
+                   else quad_value (pad4 os);
+           nplen := classful o1 |}).
+Proof. exact (conj ((fun o => conj (classful_prefix_int_ok o) (classful_prefix_int_bad o))) (conj expand_partial (conj abbrev_classful (conj abbrev_prefixed (conj partial_bare (conj partial_prefixed partial_classful)))))). Qed.
+Print Assumptions C03_partial.
 
 (* ============================================================ (6) malformed notations raise AddrFormatError *)
-(* a prefix text that int() reads as an integer outside 0..w (any spelling int() accepts: signs, blanks, underscores) *)
-Theorem C03_rejects_prefix : forall be ver v t n ip version flags,
-  valid_ver ver = true /\ 0 <= v < 2 ^ width ver -> version = Some ver \/ version = None ->
-  py_int 10 t = Some n -> ~ 0 <= n <= width ver ->
-  (do a <- int_to_str be ver v None; net_init be (AStr (a ++ "/" ++ t)) ip version flags) = Raise AddrFormatError.
-Proof. exact rejects_prefix. Qed.
-Print Assumptions C03_rejects_prefix.
-
-(* a mask text that the strict parser reads as a value that is neither a netmask nor a hostmask ... *)
-Theorem C03_rejects_mask : forall be ver v t x m ip version flags,
-  valid_ver ver = true /\ 0 <= v < 2 ^ width ver -> version = Some ver \/ version = None ->
-  py_int 10 t = None -> init_str be t (Some ver) INET_PTON = Ok (x, m) ->
-  is_netmask (width ver) m = false -> is_hostmask m = false ->
-  (do a <- int_to_str be ver v None; net_init be (AStr (a ++ "/" ++ t)) ip version flags) = Raise AddrFormatError.
-Proof. exact rejects_mask. Qed.
-Print Assumptions C03_rejects_mask.
-
-(* ... which says exactly: m is not contiguous *)
-Theorem C03_not_contiguous : forall w m, 0 <= w -> 0 <= m < 2 ^ w ->
-  (is_netmask w m = false /\ is_hostmask m = false <->
-   forall q, 0 <= q <= w -> m <> 2 ^ w - 2 ^ (w - q) /\ m <> 2 ^ (w - q) - 1).
-Proof. exact not_contiguous. Qed.
-Print Assumptions C03_not_contiguous.
-
-(* a prefix part that is neither an integer nor an address of the family (including one holding a further '/') *)
-Theorem C03_rejects_mask_text : forall be ver v t e ip version flags,
-  valid_ver ver = true /\ 0 <= v < 2 ^ width ver -> version = Some ver \/ version = None ->
-  py_int 10 t = None -> init_str be t (Some ver) INET_PTON = Raise e ->
-  (do a <- int_to_str be ver v None; net_init be (AStr (a ++ "/" ++ t)) ip version flags) = Raise AddrFormatError.
-Proof. exact rejects_mask_text. Qed.
-Print Assumptions C03_rejects_mask_text.
-
-(* an address part that the strict parser of the family (families) tried rejects and, for IPv4, that the partial
-   expansion does not turn into an acceptable dotted quad; with or without a prefix part *)
-Theorem C03_rejects_address : forall be val1 rest version flags, contains_char "/" val1 = false ->
-  (rest = ""%string \/ exists t, rest = ("/" ++ t)%string) ->
-  (version = Some 4 \/ version = None ->
-     init_str be val1 (Some 4) INET_PTON = Raise AddrFormatError /\
-     (expand_partial_address val1 = Raise AddrFormatError \/
-      exists e, expand_partial_address val1 = Ok e /\ init_str be e (Some 4) INET_PTON = Raise AddrFormatError)) ->
-  (version = Some 6 \/ version = None -> init_str be val1 (Some 6) INET_PTON = Raise AddrFormatError) ->
-  version = Some 4 \/ version = Some 6 \/ version = None ->
-  net_init be (AStr (val1 ++ rest)) false version flags = Raise AddrFormatError.
-Proof. exact rejects_address. Qed.
-Print Assumptions C03_rejects_address.
-
-Theorem C03_rejects_tuple : forall be v p ip version flags ver, version = Some ver -> valid_ver ver = true ->
-  ~ (0 <= v < 2 ^ width ver /\ 0 <= p <= width ver) ->
-  net_init be (ATuple [v; p]) ip version flags = Raise AddrFormatError.
-Proof. exact rejects_tuple. Qed.
-Print Assumptions C03_rejects_tuple.
-
-Theorem C03_rejects_tuple_implicit : forall be v p ip flags, ~ (0 <= v < 2 ^ 128 /\ 0 <= p <= 128) ->
-  net_init be (ATuple [v; p]) ip None flags = Raise AddrFormatError.
-Proof. exact rejects_tuple_implicit. Qed.
-Print Assumptions C03_rejects_tuple_implicit.
-
-Theorem C03_rejects_tuple_len : forall be t ip version flags, (List.length t <> 2)%nat ->
-  version = Some 4 \/ version = Some 6 \/ version = None ->
-  net_init be (ATuple t) ip version flags = Raise AddrFormatError.
-Proof. exact rejects_tuple_len. Qed.
-Print Assumptions C03_rejects_tuple_len.
+Theorem C03_rejects :
+  (* [rejects_prefix] *)
+  (* a prefix text that int() reads as an integer outside 0..w (any spelling int() accepts: signs, blanks, underscores) *)
+  (forall be ver v t n ip version flags,
+     valid_ver ver = true /\ 0 <= v < 2 ^ width ver -> version = Some ver \/ version = None ->
+     py_int 10 t = Some n -> ~ 0 <= n <= width ver ->
+     (do a <- int_to_str be ver v None; net_init be (AStr (a ++ "/" ++ t)) ip version flags) = Raise AddrFormatError) /\
+  (* [rejects_mask] *)
+  (* a mask text that the strict parser reads as a value that is neither a netmask nor a hostmask ... *)
+  (forall be ver v t x m ip version flags,
+     valid_ver ver = true /\ 0 <= v < 2 ^ width ver -> version = Some ver \/ version = None ->
+     py_int 10 t = None -> init_str be t (Some ver) INET_PTON = Ok (x, m) ->
+     is_netmask (width ver) m = false -> is_hostmask m = false ->
+     (do a <- int_to_str be ver v None; net_init be (AStr (a ++ "/" ++ t)) ip version flags) = Raise AddrFormatError) /\
+  (* [not_contiguous] *)
+  (* ... which says exactly: m is not contiguous *)
+  (forall w m, 0 <= w -> 0 <= m < 2 ^ w ->
+     (is_netmask w m = false /\ is_hostmask m = false <->
+      forall q, 0 <= q <= w -> m <> 2 ^ w - 2 ^ (w - q) /\ m <> 2 ^ (w - q) - 1)) /\
+  (* [rejects_mask_text] *)
+  (* a prefix part that is neither an integer nor an address of the family (including one holding a further '/') *)
+  (forall be ver v t e ip version flags,
+     valid_ver ver = true /\ 0 <= v < 2 ^ width ver -> version = Some ver \/ version = None ->
+     py_int 10 t = None -> init_str be t (Some ver) INET_PTON = Raise e ->
+     (do a <- int_to_str be ver v None; net_init be (AStr (a ++ "/" ++ t)) ip version flags) = Raise AddrFormatError) /\
+  (* [rejects_address] *)
+  (* an address part that the strict parser of the family (families) tried rejects and, for IPv4, that the partial
+     expansion does not turn into an acceptable dotted quad; with or without a prefix part *)
+  (forall be val1 rest version flags, contains_char "/" val1 = false ->
+     (rest = ""%string \/ exists t, rest = ("/" ++ t)%string) ->
+     (version = Some 4 \/ version = None ->
+        init_str be val1 (Some 4) INET_PTON = Raise AddrFormatError /\
+        (expand_partial_address val1 = Raise AddrFormatError \/
+         exists e, expand_partial_address val1 = Ok e /\ init_str be e (Some 4) INET_PTON = Raise AddrFormatError)) ->
+     (version = Some 6 \/ version = None -> init_str be val1 (Some 6) INET_PTON = Raise AddrFormatError) ->
+     version = Some 4 \/ version = Some 6 \/ version = None ->
+     net_init be (AStr (val1 ++ rest)) false version flags = Raise AddrFormatError) /\
+  (* [rejects_tuple] *)
+  (forall be v p ip version flags ver, version = Some ver -> valid_ver ver = true ->
+     ~ (0 <= v < 2 ^ width ver /\ 0 <= p <= width ver) ->
+     net_init be (ATuple [v; p]) ip version flags = Raise AddrFormatError) /\
+  (* [rejects_tuple_implicit] *)
+  (forall be v p ip flags, ~ (0 <= v < 2 ^ 128 /\ 0 <= p <= 128) ->
+     net_init be (ATuple [v; p]) ip None flags = Raise AddrFormatError) /\
+  (* [rejects_tuple_len] *)
+  (forall be t ip version flags, (List.length t <> 2)%nat ->
+     version = Some 4 \/ version = Some 6 \/ version = None ->
+     net_init be (ATuple t) ip version flags = Raise AddrFormatError).
+Proof. exact (conj rejects_prefix (conj rejects_mask (conj not_contiguous (conj rejects_mask_text (conj rejects_address (conj rejects_tuple (conj rejects_tuple_implicit rejects_tuple_len))))))). Qed.
+Print Assumptions C03_rejects.
 
 (* ============================================================ (7) for EVERY argument: what can escape, what can be built *)
-(* the only exceptions: AddrFormatError; ValueError for an invalid `version`; TypeError for a non-str, non-tuple argument *)
-Theorem C03_exn_kind : forall be a ip version flags e, wf_arg a -> net_init be a ip version flags = Raise e ->
-  e = AddrFormatError \/
-  (e = ValueError /\ exists v, version = Some v /\ v <> 4 /\ v <> 6) \/
-  (e = TypeError /\ (forall t, a <> ATuple t) /\ (forall s, a <> AStr s)).
-Proof. exact exn_kind. Qed.
-Print Assumptions C03_exn_kind.
-
-(* every network that is produced is well formed: no out-of-range prefix or value is ever stored *)
-Theorem C03_result_wf : forall be a ip version flags n, wf_arg a -> net_init be a ip version flags = Ok n ->
-  valid_ver (nver n) = true /\ 0 <= nval n < 2 ^ width (nver n) /\ 0 <= nplen n <= width (nver n).
-Proof. exact result_wf. Qed.
-Print Assumptions C03_result_wf.
-
-Theorem C03_other_type : forall be ip version flags, version = Some 4 \/ version = Some 6 \/ version = None ->
-  net_init be AOther ip version flags = Raise TypeError.
-Proof. exact other_type. Qed.
-Print Assumptions C03_other_type.
-
-Theorem C03_bad_version : forall be a ip v flags, v <> 4 -> v <> 6 -> (forall n, a <> ANet n) -> (forall x y, a <> AAddr x y) ->
-  net_init be a ip (Some v) flags = Raise ValueError.
-Proof. exact bad_version. Qed.
-Print Assumptions C03_bad_version.
+Theorem C03_total :
+  (* [exn_kind] *)
+  (* the only exceptions: AddrFormatError; ValueError for an invalid `version`; TypeError for a non-str, non-tuple argument *)
+  (forall be a ip version flags e, wf_arg a -> net_init be a ip version flags = Raise e ->
+     e = AddrFormatError \/
+     (e = ValueError /\ exists v, version = Some v /\ v <> 4 /\ v <> 6) \/
+     (e = TypeError /\ (forall t, a <> ATuple t) /\ (forall s, a <> AStr s))) /\
+  (* [result_wf] *)
+  (* every network that is produced is well formed: no out-of-range prefix or value is ever stored *)
+  (forall be a ip version flags n, wf_arg a -> net_init be a ip version flags = Ok n ->
+     valid_ver (nver n) = true /\ 0 <= nval n < 2 ^ width (nver n) /\ 0 <= nplen n <= width (nver n)) /\
+  (* [other_type] *)
+  (forall be ip version flags, version = Some 4 \/ version = Some 6 \/ version = None ->
+     net_init be AOther ip version flags = Raise TypeError) /\
+  (* [bad_version] *)
+  (forall be a ip v flags, v <> 4 -> v <> 6 -> (forall n, a <> ANet n) -> (forall x y, a <> AAddr x y) ->
+     net_init be a ip (Some v) flags = Raise ValueError).
+Proof. exact (conj exn_kind (conj result_wf (conj other_type bad_version))). Qed.
+Print Assumptions C03_total.
 
 (* ============================================================ (8) both back-ends: identical on every input *)
-Theorem C03_backend_invariant : forall be a ip version flags, net_init be a ip version flags = net_init Platform a ip version flags.
-Proof. exact net_init_be. Qed.
+Theorem C03_backend_invariant :
+  (* [backend_invariant] *)
+  (forall be a ip version flags, net_init be a ip version flags = net_init Platform a ip version flags) /\
+  (* [backend_invariant_str] *)
+  (forall be n, net_str be n = net_str Platform n).
+Proof. exact (conj net_init_be net_str_be). Qed.
 Print Assumptions C03_backend_invariant.
-
-Theorem C03_backend_invariant_str : forall be n, net_str be n = net_str Platform n.
-Proof. exact net_str_be. Qed.
-Print Assumptions C03_backend_invariant_str.
 
 (* non-vacuity: concrete instances of the hypotheses and conclusions *)
 Example C03_nonvacuous :
